@@ -78,6 +78,9 @@ type Config struct {
 	Root0   uint64
 	Salt    uint64 // varies the last-proposers seed, i.e. the fallback leader schedule
 	KeySeed uint64
+	// RealTimeouts keeps the repository default phase timeouts (C15 runs a virtual clock over them); otherwise the
+	// commit timeout is zeroed (C01 never looks at durations)
+	RealTimeouts bool
 }
 
 type Sim struct {
@@ -158,7 +161,9 @@ func New(cfg Config) *Sim {
 	s.props = &lib.Proposers{Addresses: [][]byte{salt}}
 	conf := lib.DefaultConfig()
 	conf.RunVDF = false
-	conf.CommitTimeoutMS = 0
+	if !cfg.RealTimeouts {
+		conf.CommitTimeoutMS = 0
+	}
 	for i := 0; i < cfg.N; i++ {
 		n := &Node{sim: s, Idx: i, Root: cfg.Root0, commitCh: make(chan struct{}, 16), syncing: &atomic.Bool{}}
 		n.Log = &capLogger{}
